@@ -842,7 +842,7 @@ def oracle_C17(rs, n, ctx):
         srcs_before = srcs.copy()
         ok = True
         for step in range(int(rs.randint(3, 8))):
-            op = str(rs.choice(["solve", "solve_list", "solve_bad", "other_dim", "call", "ray", "solve_rep"]))
+            op = str(rs.choice(["solve", "solve_list", "solve_bad", "other_dim", "call", "ray", "solve_rep", "gradient_edit", "axes_edit"]))
             tgt = str(rs.choice(list(objs)))
             hist.append([op, tgt])
             try:
@@ -877,6 +877,31 @@ def oracle_C17(rs, n, ctx):
                     if not np.array_equal(vals, ref_vals, equal_nan=True):
                         R.violate("C17:representation", f"points given as {how}: values differ", dict(rep, history=hist))
                         ok = False
+                elif op == "gradient_edit":
+                    # objects handed out by read-only accessors are the caller's: editing them must not come back
+                    keys_before = sorted(vars(ref_single))
+                    gl = ref_single.gradient
+                    for g_ in gl:
+                        # (writing through g_.grid itself would be the caller editing a documented view, not an API effect)
+                        if rs.rand() < 0.5:
+                            g_.smooth(float(rs.uniform(0.5, 2.0)))
+                        else:
+                            g_.resample(tuple(int(x) + 1 for x in g_.shape))
+                    gl2 = ref_single.gradient
+                    if not all(np.array_equal(g2_.grid, ref["grad"][..., k_]) for k_, g2_ in enumerate(gl2)):
+                        R.violate("C17:history", "gradient grids returned after the caller edited earlier ones differ from the solved gradient", dict(rep, history=hist))
+                        ok = False
+                    if sorted(vars(ref_single)) != keys_before:
+                        R.violate("C17:object-modified", f"reading .gradient added attributes {sorted(set(vars(ref_single)) - set(keys_before))} to the traveltime object", dict(rep, history=hist))
+                        ok = False
+                elif op == "axes_edit":
+                    for nm in ("zaxis", "xaxis", "yaxis")[:nd]:
+                        ax_ = getattr(ref_single, nm)
+                        ax0 = ax_.copy()
+                        ax_ += 1.0
+                        if not np.array_equal(getattr(ref_single, nm), ax0):
+                            R.violate("C17:history", f"editing the array returned by .{nm} changes later results of .{nm}", dict(rep, history=hist))
+                            ok = False
                 elif op == "ray" and ref_ray is not None:
                     ray = ref_single.raytrace(pts[0])
                     if not np.array_equal(ray, ref_ray):
